@@ -755,7 +755,9 @@ def write_cache_time(f: IO[bytes], t: int | float | tuple[int, int]) -> None:
         t = (int(secs), int(nsecs * 1000000000))
     elif not isinstance(t, tuple):
         raise TypeError(t)
-    f.write(struct.pack(">LL", *t))
+    # Like git, keep the low 32 bits of values that do not fit
+    (secs, nsecs) = t
+    f.write(struct.pack(">LL", secs & 0xFFFFFFFF, nsecs & 0xFFFFFFFF))
 
 
 def read_cache_entry(
@@ -858,9 +860,9 @@ def write_cache_entry(
             entry.dev & 0xFFFFFFFF,
             entry.ino & 0xFFFFFFFF,
             entry.mode,
-            entry.uid,
-            entry.gid,
-            entry.size,
+            entry.uid & 0xFFFFFFFF,
+            entry.gid & 0xFFFFFFFF,
+            entry.size & 0xFFFFFFFF,
             hex_to_sha(entry.sha),
             flags,
         )
